@@ -36,6 +36,7 @@ def gen_knobs(r):
     return {"set_key": "%08x" % r.getrandbits(32), "rand_seed": r.getrandbits(32), "urandom_key": r.getrandbits(32),
             "clock": 1_500_000_000 + r.getrandbits(28), "pid": r.randint(2, 60000),
             "host": r.choice(["rtr-lab-1", "build42", "localhost", "anon-box"]), "sched_key": "%08x" % r.getrandbits(32), "cli_style": r.choice([0, 0, 1, 2, 3, 4, 5, 7]),
+            "log_level": r.choice([None, None, None, "DEBUG", "DEBUG", "WARNING"]),
             "cwd": r.choice(["/home/alice/configs", "/srv/netconan/work", "/", "/tmp/x y"]),
             "environ": {"TZ": r.choice(["UTC", "Asia/Tokyo", "America/Lima"]), "LANG": r.choice(["C", "en_US.UTF-8", "de_DE.UTF-8"]),
                         "USER": r.choice(["root", "alice", "svc-netconan"]), "COLUMNS": str(r.choice([80, 132, 200]))},
@@ -371,6 +372,8 @@ def gen_lines(r, ctx, secrets, o, n, eol_variety=True):
             ln = G.expand(r, r.choice(G.LINES_AS), ctx)
         if ln is None:
             ln = G.lit_line(r.choice(G.BENIGN))
+        if r.random() < 0.008:
+            ln = long_pad(r, ln, secrets)
         if eol_variety and r.random() < 0.05:
             ln["eol"] = "\r\n"
         elif eol_variety and r.random() < 0.04:
@@ -379,6 +382,22 @@ def gen_lines(r, ctx, secrets, o, n, eol_variety=True):
     if lines and eol_variety and r.random() < 0.2:
         lines[-1]["eol"] = ""
     return lines
+
+
+def long_pad(r, ln, secrets):
+    """Pad a line at its start so that a multiple of the default buffer size (8192 characters) falls at a chosen character
+    of it: a reader that hands lines over in bounded pieces would cut the line there."""
+    body = "".join(G.render_seg(s, "a", secrets or {}) for s in ln["segs"] if s[0] != "bad")
+    if any(s[0] == "bad" for s in ln["segs"]) or not body:
+        return ln
+    cut = r.randint(0, len(body))
+    n = r.choice([8192, 8192, 8192, 8192, 16384, 4096, 65536]) * r.choice([1, 1, 2]) - cut
+    pad = " " * n if r.random() < 0.6 else "x" * (n - 1) + " "
+    if ln["segs"][0][0] == "lit":
+        ln["segs"][0][1] = pad + ln["segs"][0][1]
+    else:
+        ln["segs"].insert(0, ["lit", pad])
+    return ln
 
 
 MANY_NAMES = ["rtr%02d.cfg" % i for i in range(60)]
